@@ -2,7 +2,7 @@
 From TT Require Import Model.Doc Gen.StyleTables Model.Isd Model.Lcd Spec.LcdSpec Model.LcdCases
   Proofs.Common.ElemInd Proofs.C16.Basics Proofs.C16.Prov Proofs.C16.Refs Proofs.C16.Chains.
 
-Definition time_of (a : attrs) : Q * option Q := (or0 (e_begin a), or_none (e_end a)).
+Definition time_of (a : attrs) : Q * option Q := (or0 (e_begin a), e_end a).
 Definition time_eqb (x y : Q * option Q) : bool := Qeq_bool (fst x) (fst y) && oQ_eqb (snd x) (snd y).
 Definition fp_time (f : fp) : Q * option Q := let '(b, e, _, _) := f in (b, e).
 
